@@ -1,6 +1,7 @@
 """C08 - level limits bound every point a grid ever contains or proposes; refinement terminates when they admit nothing."""
 import random
 import gridlib as gl
+import vf
 
 
 def limited_history(rnd, label):
@@ -11,14 +12,28 @@ def limited_history(rnd, label):
     return gl.history(rnd, label, fam=fam, steps=rnd.randint(4, 9), with_construct=True, limits=lim, d=d)
 
 
+def aniso_loop_mc(ctx):
+    """termination clause at the level of the design: the grow-until-min_growth loop as a step machine (AnisoLoop.tla), for every
+    weight vector, limit vector (saturated ones included) and min_growth in bounds; the loop of the pinned tree is the negative control"""
+    for cfg, must_fail in (("AnisoLoop.cfg", False), ("AnisoLoopPinned.cfg", True)):
+        r = vf.run_tlc("AnisoLoop.tla", cfg, workers=6, timeout=1800, xmx="4g")
+        vf.tlc_must_pass(r, cfg)
+        ctx.add_tlc(r, cfg)
+        if must_fail and r.violated != "Terminates":
+            raise vf.FrameworkError("the loop of the pinned tree (no exit when the limits are saturated) is expected to violate Terminates")
+        if not must_fail and r.violated:
+            ctx.report("spec:AnisoLoop:" + r.violated, "the model of the anisotropic refinement loop violates " + r.violated, {"tlc": r.error_trace[:4000]})
+
+
 def run(ctx):
     rnd = random.Random(ctx.seed + 808)
+    aniso_loop_mc(ctx)
     n = 200 if ctx.quick else 1200
     scens = [limited_history(rnd, "l%d" % i) for i in range(n)]
     gen = gl.mc_and_scripts(ctx, ['seq', 'localp1', 'semilocalp', 'localpb', 'wavelet', 'globalcc', 'globalleja', 'fourier'], rnd, 150 if ctx.quick else 1000, maxlen=None if ctx.quick else 5, genlen=3 if ctx.quick else 4, mc=True)
     gl.run_grid(ctx, gen + [("limits", scens), ("mixed", gl.mixed_family(rnd, max(40, n // 5)))], 0, "C08")
     ctx.assume("points loaded before limits were (re)set may exceed them; their descendants in other directions inherit that coordinate (bound per dimension: max(limit, highest loaded level))")
-    ctx.assume("non-termination is observed by a watchdog: each refinement/update call runs first in a forked child with a 10 s limit")
+    ctx.assume("termination: AnisoLoop.tla shows for all parameters in bounds (2-D, weights 1..3, limits -1..2, min_growth 1..4) that the loop leaves, also when the limits are saturated (liveness under weak fairness + a bound on the iterations); on the code  each refinement/update call runs first in a forked child with a 10 s limit")
 
 
 def replay(ctx, path):
